@@ -73,7 +73,7 @@ Definition worker_skeleton_fixed : list (string * list string) :=
 
 Definition blocks_skeleton_ref : list (string * list string) :=
   [("Blocks::constructor",
-      ["Open"; "While(it->hasNext())"; "Open"; "If(!it->hasNext()||acc_size>cut_size)"; "Open"; "Open"; "LockScope m"; "PartsSize"; "PartsPush"; "Close"; "Call wpool.add_task"; "Open"; "BuildBlock"; "Open"; "LockScope m"; "PartsStore[next_part_index]"; "PartsDoneInc"; "Close"; "NotifyAll cv"; "Close"; "Close"; "Close"; "Lock m"; "Wait cv pred(parts_done==parts.size())"; "Call wpool.stop_all_workers"; "Call wpool.wait_workers"; "Close"])].
+      ["Open"; "While"; "Open"; "If"; "Open"; "Open"; "LockScope m"; "PartsSize"; "PartsPush"; "Close"; "Call wpool.add_task"; "Open"; "BuildBlock"; "Open"; "LockScope m"; "PartsStore"; "PartsDoneInc"; "Close"; "NotifyAll cv"; "Close"; "Close"; "Close"; "Lock m"; "Wait cv pred(DONE==parts.size())"; "Call wpool.stop_all_workers"; "Call wpool.wait_workers"; "Close"])].
 
 Definition sync_objects_ref : list (string * list string) :=
   [("Worker.hpp::sync_objects",
